@@ -37,6 +37,8 @@ def generate(rng, tier):
         add(("L_Pen", rng.random() < 0.5, _i(rng), _o(rng))); add(("L_BConfig", rng.randint(0, 7), rng.randint(0, 1))); add(("L_BSet", rng.randint(0, 7), rng.randint(0, 1)))
         add(("L_Toggle",)); add(("L_PenPos", rng.random() < 0.5, _i(rng))); add(("L_PenRate", rng.random() < 0.5, _i(rng)))
         add(("L_LayerVar", rng.randint(0, 255))); add(("L_Servo", _i(rng), rng.choice([None, 0, 1])))
+        va, vb, vc = rng.choice([(2, 5, 9), (2, 6, 0), (2, 0, 6), (2, 5, 3), (2, 10, 0), (3, 0, 0), (1, 9, 9), (2, 6, 1), (2, 4, 10), (2, rng.randint(0, 12), rng.randint(0, 12))])
+        add(("L_ServoV", va, vb, vc, _i(rng), rng.choice([None, 0, 1])))
         add(("E_XY", _i(rng), _i(rng), _i(rng))); add(("E_Abs", _i(rng), _o(rng), _o(rng))); add(("E_Pause", _pause(rng))); add(("E_MotorsOff",))
         add(("E_MotorsOn", rng.randint(-2, 8), rng.randint(-2, 8))); add(("E_Pen", rng.random() < 0.5, _i(rng), _o(rng)))
         add(("E_BConfig", rng.randint(0, 7), rng.randint(0, 1), rng.randint(0, 1))); add(("E_BSet", rng.randint(0, 7), rng.randint(0, 1)))
@@ -67,15 +69,17 @@ def generate(rng, tier):
 
 class AckPort:
     """acknowledges everything: legacy commands get OK, EBB3 requests get their own name back"""
-    def __init__(self, legacy, delay=0, blank=False):
+    def __init__(self, legacy, delay=0, blank=False, version=None):
         self.legacy, self.writes, self.queue = legacy, [], []
+        self.version = version                       # what a legacy board answers to V
         self.delay, self.blank = delay, blank        # reads that time out (b'') / a blank line before each acknowledgement
     def write(self, data):
         self.writes.append(data)
         t = data.decode("ascii").strip()
         nm = t[0] if (len(t) == 1 or t[1] == ",") else t[:2]
         self.queue += [b""] * self.delay + ([b"\r\n"] if self.blank else [])
-        if self.legacy: self.queue.append(b"OK\r\n")
+        if self.legacy and nm.upper() == "V" and self.version: self.queue.append(("EBBv13_and_above EB Firmware Version %s\r\n" % self.version).encode())
+        elif self.legacy: self.queue.append(b"OK\r\n")
         else: self.queue.append((nm + (",0,0" if nm == "QE" else "")).encode() + b"\r\n")
         return len(data)
     def readline(self):
@@ -86,7 +90,7 @@ class AckPort:
 def run_impl(c):
     h = c["h"]; k, a = h[0], h[1:]
     legacy = k.startswith("L_")
-    port = AckPort(legacy, c.get("delay", 0), c.get("blank", False))
+    port = AckPort(legacy, c.get("delay", 0), c.get("blank", False), "%d.%d.%d" % tuple(a[:3]) if k == "L_ServoV" else None)
     if legacy:
         M = ebb_motion
         if k == "L_XY": M.doXYMove(port, a[0], a[1], a[2], False)
@@ -103,6 +107,7 @@ def run_impl(c):
         elif k == "L_PenPos": (M.setPenUpPos if a[0] else M.setPenDownPos)(port, a[1], False)
         elif k == "L_PenRate": (M.setPenUpRate if a[0] else M.setPenDownRate)(port, a[1], False)
         elif k == "L_LayerVar": M.setEBBLV(port, a[0], False)
+        elif k == "L_ServoV": M.servo_timeout(port, a[3], a[4], False)       # through the real version gate
         elif k == "L_Servo":
             # the version gate (C15) is not the subject here: let it pass
             orig = M.ebb_serial.min_version; M.ebb_serial.min_version = lambda p, v: True
@@ -146,7 +151,7 @@ def _arg(x):
     if x is None: return "None"
     if isinstance(x, bool): return cb(x)
     return cz(x)
-OPT = {"L_LM": [6], "L_Abs": [1, 2], "L_Pen": [2], "L_Servo": [1], "E_Abs": [1, 2], "E_Pen": [2], "E_Servo": [1]}
+OPT = {"L_LM": [6], "L_Abs": [1, 2], "L_Pen": [2], "L_Servo": [1], "L_ServoV": [4], "E_Abs": [1, 2], "E_Pen": [2], "E_Servo": [1]}
 def coq_case(c, r):
     h = c["h"]; k, a = h[0], h[1:]
     args = []
